@@ -199,6 +199,31 @@ Section DTLZ.
   Lemma dtlz4_lower : 1 <= sumsq_of (DTLZ4_eval Mz nz x).
   Proof. rewrite dtlz4_sumsq_identity. apply sq_ge_1, g24_nonneg. Qed.
 
+  (* ---- the samplers' construction: distance variables at 1/2 give g = 0, i.e. the front equation with equality *)
+  Definition tail_at_half : Prop := forall j, (j < dtlz_k x M)%nat -> X x (M - 1 + j) = 1 / 2.
+  Lemma g24_zero : tail_at_half -> dtlz_g24 x M = 0.
+  Proof.
+    intros H. unfold dtlz_g24, dtlz_tail_sum. rewrite (big_sum_ext _ _ (fun _ => 0 * 0)).
+    - rewrite big_sum_scal. ring.
+    - intros j Hj. rewrite H by assumption. ring.
+  Qed.
+  Lemma g13_zero : tail_at_half -> dtlz_g13 x M = 0.
+  Proof.
+    intros H. unfold dtlz_g13, dtlz_tail_sum. rewrite (big_sum_ext _ _ (fun _ => (-1) * 1)).
+    - rewrite big_sum_scal. assert (E : forall m, big_sum (fun _ => 1) m = INR m).
+      { induction m as [|m IH]; [reflexivity|]. rewrite S_INR. simpl. rewrite IH. ring. }
+      rewrite E. ring.
+    - intros j Hj. rewrite H by assumption. replace (20 * PI * (1 / 2 - 1 / 2)) with 0 by ring. rewrite cos_0. ring.
+  Qed.
+  Lemma dtlz1_sampler_on_front : tail_at_half -> sum_of (DTLZ1_eval Mz nz x) = 1 / 2.
+  Proof. intros H. rewrite dtlz1_sum_identity, g13_zero by assumption. field. Qed.
+  Lemma dtlz2_sampler_on_front : tail_at_half -> sumsq_of (DTLZ2_eval Mz nz x) = 1.
+  Proof. intros H. rewrite dtlz2_sumsq_identity, g24_zero by assumption. ring. Qed.
+  Lemma dtlz3_sampler_on_front : tail_at_half -> sumsq_of (DTLZ3_eval Mz nz x) = 1.
+  Proof. intros H. rewrite dtlz3_sumsq_identity, g13_zero by assumption. ring. Qed.
+  Lemma dtlz4_sampler_on_front : tail_at_half -> sumsq_of (DTLZ4_eval Mz nz x) = 1.
+  Proof. intros H. rewrite dtlz4_sumsq_identity, g24_zero by assumption. ring. Qed.
+
   (* ---- no Python exception (index errors are the only possible ones in DTLZ1-4) *)
   Ltac dtlz_defined :=
     cbv zeta; split;
@@ -301,3 +326,16 @@ Section DTLZ7.
       unfold py_repeat. rewrite repeat_length. lia.
   Qed.
 End DTLZ7.
+
+(* non-vacuity: the hypotheses of the DTLZ theorems hold e.g. for 3 objectives and the constructors' variable counts,
+   at a point of the samplers' form (positions 1/4, 3/4; distance variables 1/2) *)
+Example dtlz_hyps_3_12 : let x := [1 / 4; 3 / 4] ++ repeat (1 / 2) 10 in
+  (1 <= 3)%nat /\ (3 - 1 <= 12)%nat /\ length x = 12%nat /\ in01 x /\ tail_at_half 3 x.
+Proof.
+  cbv zeta. repeat split; try (simpl; lia).
+  - unfold in01. repeat constructor; lra.
+  - unfold tail_at_half, dtlz_k, X. simpl length. intros j Hj.
+    do 10 (destruct j as [|j]; [simpl; lra|]). simpl in Hj. lia.
+Qed.
+Example dtlz7_hyps_3_22 : (1 <= 3)%nat /\ (3 <= 22)%nat /\ length (repeat (1 / 2) 22) = 22%nat /\ in01 (repeat (1 / 2) 22).
+Proof. repeat split; try lia. unfold in01. apply Forall_forall. intros t Ht. apply repeat_spec in Ht. subst. lra. Qed.
